@@ -1,5 +1,6 @@
 import HeraModel.VM
 import HeraModel.Generated.Tables
+import HeraModel.Model.Run
 /-
   Line protocol between the Python harness and the model driver `herad`:
   whitespace-separated tokens, integers in decimal, lists length-prefixed.
@@ -124,6 +125,17 @@ def vm : R VM := do
          flag_carry_block, memory := mem, input_buffer, input_pos, expected_returns, halted,
          location, op_count, warned_for_SWI, warned_for_RTI, warned_for_overflow,
          warning_count, out }
+
+def op : R Op := do
+  let c ← cls
+  let args ← list val
+  let loc ← int
+  pure { cls := c, args, loc }
+
+def program : R Program := do
+  let data ← list op
+  let code ← list op
+  pure { data, code }
 
 /-! ### writers -/
 
